@@ -243,6 +243,7 @@ func init() {
 			sc.SetInt("rC", g.Intn(2))
 			sc.SetInt("rZ", g.Intn(2))
 			sc.SetInt("rD", g.Intn(2))
+			sc.SetInt("cvar", g.Intn(4)) // which constructor builds the connectable observable
 			if clients > 1 {
 				sc.SetInt("clients", g.Range(2, 3))
 			} else {
@@ -314,7 +315,21 @@ func runC11(e *Env) {
 	default:
 		m.connectable = true
 		m.resetDisc = sc.Int("rD", 0) == 1
-		conn = ro.ConnectableWithConfig(src.Obs(), ro.ConnectableConfig[int]{Connector: connector, ResetOnDisconnect: m.resetDisc})
+		cfg := ro.ConnectableConfig[int]{Connector: connector, ResetOnDisconnect: m.resetDisc}
+		subscribeFn := func(dest ro.Observer[int]) ro.Teardown {
+			return src.Obs().Subscribe(dest).Unsubscribe
+		}
+		defaults := kinds[ci] == "publish" && m.resetDisc // what the constructors without a config use
+		switch cv := sc.Int("cvar", 0); {
+		case cv == 1 && defaults:
+			conn = ro.Connectable(src.Obs())
+		case cv == 2 && defaults:
+			conn = ro.NewConnectableObservable(subscribeFn)
+		case cv == 3:
+			conn = ro.NewConnectableObservableWithConfig(subscribeFn, cfg)
+		default:
+			conn = ro.ConnectableWithConfig(src.Obs(), cfg)
+		}
 		shared = conn
 		m.subj = m.newSubject()
 	}
